@@ -287,6 +287,9 @@ def _twin_history(ctx, spec, meta, channel, plain, it, ops, rng, n_ops):
             if step >= len(ops):
                 break
             op = ops[step]
+            if op == ['final']:
+                step += 1
+                continue
         else:
             if step >= n_ops:
                 break
@@ -314,7 +317,9 @@ def _twin_history(ctx, spec, meta, channel, plain, it, ops, rng, n_ops):
             found = compare(op[1], 'first' if not any(o[0] == 'set' for o in done) else 'after writes')
             if found is None and rng is not None and rng.random() < 0.3:
                 found = compare(op[1], 'repeated')
-    if found is None and ops is None:
+    if found is None and (ops is None or ['final'] in ops):
+        if ops is None:
+            done.append(['final'])
         for a in addresses:
             found = found or compare(a, 'final')
     ctx.count('twin_histories')
